@@ -76,6 +76,6 @@ finally:
     sh(f'git -C /repo worktree remove --force {wt}')
     # restore generated files / evidence to the unchanged tree's state
     # (the checks regenerated lean/Wbxml/Gen/* and rewrote evidence/* from the seeded tree: back to the committed state)
-    sh(f'git -C {V} checkout -- lean/Wbxml/Gen evidence')
+    sh(f'git -C {V} checkout -- lean/Wbxml/Gen evidence corpus')
 json.dump(meta, open(os.path.join(dst, 'meta.json'), 'w'), indent=1)
 print(json.dumps(meta, indent=1)[:2500])
